@@ -10,9 +10,9 @@ namespace ESV.Decomp
 open ESV.Beh
 
 def ifv (i : Nat) (off : Int) (name : String) (ifs : Nat) (isNot : Bool := false) : BVertex :=
-  ⟨some i, .item (.ljump ⟨off, name, []⟩ 0 false), some ifs, [], [], isNot, none, []⟩
-def opv (i : Nat) (off : Int) (name : String) : BVertex := ⟨some i, .item (.op ⟨off, name, []⟩), none, [], [], false, none, []⟩
-def labv (i : Nat) (id : Nat) (ife : List Nat) : BVertex := ⟨some i, .item (.label id), none, ife, [], false, none, []⟩
+  ⟨some i, .item (.ljump ⟨off, name, []⟩ 0 false), some ifs, [], [], isNot, none, [], false, false, none, [], none, none, false⟩
+def opv (i : Nat) (off : Int) (name : String) : BVertex := ⟨some i, .item (.op ⟨off, name, []⟩), none, [], [], false, none, [], false, false, none, [], none, none, false⟩
+def labv (i : Nat) (id : Nat) (ife : List Nat) : BVertex := ⟨some i, .item (.label id), none, ife, [], false, none, [], false, false, none, [], none, none, false⟩
 def fe (s d lv : Nat) (isElse : Bool) : BEdge := ⟨s, d, lv, false, isElse, []⟩
 
 /-- `if (Branch || BranchBit) { Foo } else { Bar }` before grouping -/
